@@ -129,7 +129,16 @@ fn run(ctx: &mut Ctx) {
                     }
                     5 => {
                         // corrupted word: neither timestamp, marker nor start of a scaler block
-                        let k = rng.usize(items.len());
+                        // anywhere, and often at the places a lenient reader would special-case: the very first word,
+                        // right after the leading scaler blocks, right before / after a marker, the very last word
+                        let k = match rng.below(8) {
+                            0 | 1 => 0,
+                            2 => items.iter().position(|it| it.edge.is_some() || it.marker.is_some()).unwrap_or(0),
+                            3 => items.len(),
+                            4 if !markers.is_empty() => markers[rng.usize(markers.len())],
+                            5 if !markers.is_empty() => markers[rng.usize(markers.len())] + 1,
+                            _ => rng.usize(items.len() + 1),
+                        };
                         let mut bad = [rng.next() as u8, rng.next() as u8, rng.next() as u8, *rng.pick(&[0x00u8, 0x7F, 0x80 | 59, 0x80 | 126, 0xFD, 0x3C])];
                         if rng.chance(0.4) {
                             // near-miss scaler tags: top byte 0xFE but not the tag 3C 00 00 FE
